@@ -661,6 +661,7 @@ func checkC15(res *Result) {
 		}
 	}
 	checkC15Algebra(res, pkgs)
+	checkC15LoopState(res, pkgs)
 	for i, rv := range reviewedRanges {
 		if !reviewedUsed[i] {
 			fmt.Printf("NOTE: reviewed map-range entry no longer matches a site: %s over %s\n", rv.fn, rv.expr)
